@@ -271,6 +271,87 @@ def run(chk):
     _eos_rule(chk, prog)
     _boxing_rule(chk, prog)
     _fiberimg_rule(chk, prog)
+    _envvalid_rule(chk, prog)
+
+
+def _envvalid_rule(chk, prog):
+    """An unmarshalled on-stack closure environment carries a negated, UNTRUSTED stack offset.  The interpreter and
+    the collector index fiber->data with it, so janet_env_valid may promote it to a trusted (positive) offset only
+    for a value that (1) equals a frame boundary found by walking the fiber's own frame chain, (2) whose frame names
+    this very environment (else the frame's exit does not detach it and the environment dangles), (3) has a function
+    and (4) whose slot count equals the environment's length (else reads run past the frame)."""
+    rule = "C10-ENVVALID"
+    chk.rule(rule, "janet_env_valid trusts an image-supplied stack offset only if it equals a walked frame boundary owned by this env with matching slot count")
+    prog2 = Program.load("default", units=["fiber.c"])
+    fn = prog2.need_func("janet_env_valid")
+    chk.analysed(fn)
+    # the frame-chain walker: a local assigned from fiber->frame and from frame->prevframe
+    walkers = set()
+    srcs = {}
+    for x in fn.nodes:
+        tgt = rhs = None
+        if x.k == "vardecl" and x.kids:
+            tgt, rhs = x.name, strip_casts(x.kids[0])
+        elif x.k == "asg" and x.op == "=" and is_ref(x.kids[0]):
+            tgt, rhs = x.kids[0].name, strip_casts(x.kids[1])
+        if tgt and rhs is not None and rhs.k == "mem" and rhs.field in ("frame", "prevframe"):
+            srcs.setdefault(tgt, set()).add(rhs.field)
+    walkers = set(k for k, v in srcs.items() if v == {"frame", "prevframe"})
+    if not walkers:
+        raise AnalysisBroken("janet_env_valid: no frame-chain walker (local assigned from fiber->frame and frame->prevframe)")
+
+    def toks(x):
+        return set(r.name for r in x.walk() if r.k == "ref")
+
+    def transfer(st, x):
+        tgt = None
+        if x.k == "asg" and is_ref(x.kids[0]):
+            tgt = x.kids[0].name
+        elif x.k == "vardecl":
+            tgt = x.name
+        if tgt:
+            return frozenset(f for f in st if tgt not in f[3])
+        return st
+
+    def edge(st, blk, succ, cond, truth):
+        c = flow.compare_of(cond, truth)
+        if c is None:
+            return st
+        l, op, r = c
+        if op == "==" and r is not None:
+            return st | {("eq", strip_casts(l).text(), strip_casts(r).text(), frozenset(toks(l) | toks(r)))}
+        if op == "!=" and (r is None or r.v == 0):
+            return st | {("nz", strip_casts(l).text(), "", frozenset(toks(l)))}
+        return st
+    IN, OUT, T = flow.forward_paths(fn, frozenset(), transfer, edge=edge)
+    sites = [x for x in fn.nodes if x.k == "asg" and x.op == "=" and x.kids[0].k == "mem" and x.kids[0].field == "offset"
+             and x.kids[0].rec == "JanetFuncEnv" and x.kids[1].v is None]
+    if len(sites) != 1:
+        raise AnalysisBroken("janet_env_valid: expected one promotion store to env->offset, found %d" % len(sites))
+    envp = fn.params[0]["n"]
+    for x, S in flow.states_at(fn, IN, T):
+        if x is not sites[0]:
+            continue
+        val = strip_casts(x.kids[1]).text()
+        need = {
+            "offset equals a frame boundary from the frame-chain walk":
+                lambda ps: any(f[0] == "eq" and ((f[1] == val and f[2] in walkers) or (f[2] == val and f[1] in walkers)) for f in ps),
+            "the frame at that boundary names this environment (frame->env == env)":
+                lambda ps: any(f[0] == "eq" and ((f[1].endswith("->env") and f[2] == envp) or (f[2].endswith("->env") and f[1] == envp)) for f in ps),
+            "the frame has a function":
+                lambda ps: any(f[0] == "nz" and f[1].endswith("->func") for f in ps),
+            "the frame's slot count equals the environment's length":
+                lambda ps: any(f[0] == "eq" and (("slotcount" in f[1] and f[2].endswith("->length")) or ("slotcount" in f[2] and f[1].endswith("->length"))) for f in ps),
+        }
+        for what, pred in need.items():
+            chk.instance(rule)
+            if S and all(pred(ps) for ps in S):
+                chk.ok(rule, "janet_env_valid: `%s` only where %s" % (x.text(), what))
+            else:
+                chk.violation(rule, "fiber.c", fn.name, what.split(" (")[0], x.loc,
+                              "`%s` promotes the image-supplied offset to a trusted one on a path that has not established that %s; "
+                              "the interpreter and the collector then index the fiber stack with an unvalidated offset" % (x.text(), what))
+    chk.floor(rule, 4)
 
 
 # ------------------------------------------------------------------------------------------------
